@@ -55,23 +55,45 @@ fn bin32(ops: &[Operator<'static, f32>], idx: usize, name: &str) -> fn(f32, f32)
     ops[idx].bin().unwrap().apply
 }
 
-/// exactly modelled unary primitives, f64
+/// sign-like unary primitives, f64
 #[kani::proof]
 #[kani::unwind(10)]
 #[kani::stub(alloc::fmt::format, crate::stubs::fmt_stub)]
-fn c19_f64_exact_unary() {
+fn c19_f64_signs() {
     let ops = FloatOpsFactory::<f64>::make();
     let a: f64 = kani::any();
     assert!(feq64(un64(&ops, FIDX_PLUS, "+")(a), a));
     assert!(feq64(un64(&ops, FIDX_MINUS, "-")(a), -a));
     assert!(feq64(un64(&ops, FIDX_ABS, "abs")(a), a.abs()));
     assert!(feq64(un64(&ops, FIDX_SIGNUM, "signum")(a), a.signum()));
+    kani::cover!(a < -1.5 && a > -2.5, "negative non-integer operand reached");
+    core::mem::forget(ops);
+}
+
+/// rounding family, f64 (slow: CBMC's float rounding models)
+#[kani::proof]
+#[kani::unwind(10)]
+#[kani::stub(alloc::fmt::format, crate::stubs::fmt_stub)]
+fn c19_f64_rounding_slow() {
+    let ops = FloatOpsFactory::<f64>::make();
+    let a: f64 = kani::any();
     assert!(feq64(un64(&ops, FIDX_FLOOR, "floor")(a), a.floor()));
     assert!(feq64(un64(&ops, FIDX_CEIL, "ceil")(a), a.ceil()));
     assert!(feq64(un64(&ops, FIDX_ROUND, "round")(a), a.round()));
     assert!(feq64(un64(&ops, FIDX_TRUNC, "trunc")(a), a.trunc()));
-    assert!(feq64(un64(&ops, FIDX_SQRT, "sqrt")(a), a.sqrt()));
     kani::cover!(a < -1.5 && a > -2.5, "negative non-integer operand reached");
+    core::mem::forget(ops);
+}
+
+/// sqrt, f64 (slow)
+#[kani::proof]
+#[kani::unwind(10)]
+#[kani::stub(alloc::fmt::format, crate::stubs::fmt_stub)]
+fn c19_f64_sqrt_slow() {
+    let ops = FloatOpsFactory::<f64>::make();
+    let a: f64 = kani::any();
+    assert!(feq64(un64(&ops, FIDX_SQRT, "sqrt")(a), a.sqrt()));
+    kani::cover!(a > 1.5 && a < 2.5, "positive operand reached");
     core::mem::forget(ops);
 }
 
@@ -95,53 +117,89 @@ fn c19_f64_minmax_consts() {
     core::mem::forget(ops);
 }
 
-/// transcendental primitives through tagged stubs, f64: `name(a)` must be exactly `tag_name(a)`
+/// tagged stubs, f64, group a: sin, ln, log and the two-argument primitives powf, atan2 (argument order)
 #[kani::proof]
 #[kani::unwind(10)]
 #[kani::stub(alloc::fmt::format, crate::stubs::fmt_stub)]
 #[kani::stub(f64::sin, t64::sin)]
+#[kani::stub(f64::ln, t64::ln)]
+#[kani::stub(f64::powf, t64::powf)]
+#[kani::stub(f64::atan2, t64::atan2)]
+fn c19_f64_tagged_a() {
+    let ops = FloatOpsFactory::<f64>::make();
+    let a: f64 = kani::any();
+    let b: f64 = kani::any();
+    assert!(feq64(un64(&ops, FIDX_SIN, "sin")(a), t64::sin(a)));
+    assert!(feq64(un64(&ops, FIDX_LN, "ln")(a), t64::ln(a)));
+    assert!(feq64(un64(&ops, FIDX_LOG, "log")(a), t64::ln(a)));
+    assert!(feq64(bin64(&ops, FIDX_POW, "^")(a, b), t64::powf(a, b)));
+    assert!(feq64(bin64(&ops, FIDX_ATAN2, "atan2")(a, b), t64::atan2(a, b)));
+    kani::cover!(a != b && !a.is_nan() && !b.is_nan(), "two different operands reached");
+    core::mem::forget(ops);
+}
+
+/// tagged stubs, f64, group b: cos, tan, asin, acos, atan
+#[kani::proof]
+#[kani::unwind(10)]
+#[kani::stub(alloc::fmt::format, crate::stubs::fmt_stub)]
 #[kani::stub(f64::cos, t64::cos)]
 #[kani::stub(f64::tan, t64::tan)]
 #[kani::stub(f64::asin, t64::asin)]
 #[kani::stub(f64::acos, t64::acos)]
 #[kani::stub(f64::atan, t64::atan)]
+fn c19_f64_tagged_b_slow() {
+    let ops = FloatOpsFactory::<f64>::make();
+    let a: f64 = kani::any();
+    let b: f64 = kani::any();
+    assert!(feq64(un64(&ops, FIDX_COS, "cos")(a), t64::cos(a)));
+    assert!(feq64(un64(&ops, FIDX_TAN, "tan")(a), t64::tan(a)));
+    assert!(feq64(un64(&ops, FIDX_ASIN, "asin")(a), t64::asin(a)));
+    assert!(feq64(un64(&ops, FIDX_ACOS, "acos")(a), t64::acos(a)));
+    assert!(feq64(un64(&ops, FIDX_ATAN, "atan")(a), t64::atan(a)));
+    kani::cover!(a != b && !a.is_nan() && !b.is_nan(), "two different operands reached");
+    core::mem::forget(ops);
+}
+
+/// tagged stubs, f64, group c: sinh, cosh, tanh, asinh, acosh, atanh
+#[kani::proof]
+#[kani::unwind(10)]
+#[kani::stub(alloc::fmt::format, crate::stubs::fmt_stub)]
 #[kani::stub(f64::sinh, t64::sinh)]
 #[kani::stub(f64::cosh, t64::cosh)]
 #[kani::stub(f64::tanh, t64::tanh)]
 #[kani::stub(f64::asinh, t64::asinh)]
 #[kani::stub(f64::acosh, t64::acosh)]
 #[kani::stub(f64::atanh, t64::atanh)]
-#[kani::stub(f64::exp, t64::exp)]
-#[kani::stub(f64::ln, t64::ln)]
-#[kani::stub(f64::log2, t64::log2)]
-#[kani::stub(f64::log10, t64::log10)]
-#[kani::stub(f64::cbrt, t64::cbrt)]
-#[kani::stub(f64::powf, t64::powf)]
-#[kani::stub(f64::atan2, t64::atan2)]
-fn c19_f64_tagged() {
+fn c19_f64_tagged_c_slow() {
     let ops = FloatOpsFactory::<f64>::make();
     let a: f64 = kani::any();
     let b: f64 = kani::any();
-    assert!(feq64(un64(&ops, FIDX_SIN, "sin")(a), t64::sin(a)));
-    assert!(feq64(un64(&ops, FIDX_COS, "cos")(a), t64::cos(a)));
-    assert!(feq64(un64(&ops, FIDX_TAN, "tan")(a), t64::tan(a)));
-    assert!(feq64(un64(&ops, FIDX_ASIN, "asin")(a), t64::asin(a)));
-    assert!(feq64(un64(&ops, FIDX_ACOS, "acos")(a), t64::acos(a)));
-    assert!(feq64(un64(&ops, FIDX_ATAN, "atan")(a), t64::atan(a)));
     assert!(feq64(un64(&ops, FIDX_SINH, "sinh")(a), t64::sinh(a)));
     assert!(feq64(un64(&ops, FIDX_COSH, "cosh")(a), t64::cosh(a)));
     assert!(feq64(un64(&ops, FIDX_TANH, "tanh")(a), t64::tanh(a)));
     assert!(feq64(un64(&ops, FIDX_ASINH, "asinh")(a), t64::asinh(a)));
     assert!(feq64(un64(&ops, FIDX_ACOSH, "acosh")(a), t64::acosh(a)));
     assert!(feq64(un64(&ops, FIDX_ATANH, "atanh")(a), t64::atanh(a)));
+    kani::cover!(a != b && !a.is_nan() && !b.is_nan(), "two different operands reached");
+    core::mem::forget(ops);
+}
+
+/// tagged stubs, f64, group d: exp, log2, log10, cbrt
+#[kani::proof]
+#[kani::unwind(10)]
+#[kani::stub(alloc::fmt::format, crate::stubs::fmt_stub)]
+#[kani::stub(f64::exp, t64::exp)]
+#[kani::stub(f64::log2, t64::log2)]
+#[kani::stub(f64::log10, t64::log10)]
+#[kani::stub(f64::cbrt, t64::cbrt)]
+fn c19_f64_tagged_d_slow() {
+    let ops = FloatOpsFactory::<f64>::make();
+    let a: f64 = kani::any();
+    let b: f64 = kani::any();
     assert!(feq64(un64(&ops, FIDX_EXP, "exp")(a), t64::exp(a)));
-    assert!(feq64(un64(&ops, FIDX_LN, "ln")(a), t64::ln(a)));
-    assert!(feq64(un64(&ops, FIDX_LOG, "log")(a), t64::ln(a)));
     assert!(feq64(un64(&ops, FIDX_LOG2, "log2")(a), t64::log2(a)));
     assert!(feq64(un64(&ops, FIDX_LOG10, "log10")(a), t64::log10(a)));
     assert!(feq64(un64(&ops, FIDX_CBRT, "cbrt")(a), t64::cbrt(a)));
-    assert!(feq64(bin64(&ops, FIDX_POW, "^")(a, b), t64::powf(a, b)));
-    assert!(feq64(bin64(&ops, FIDX_ATAN2, "atan2")(a, b), t64::atan2(a, b)));
     kani::cover!(a != b && !a.is_nan() && !b.is_nan(), "two different operands reached");
     core::mem::forget(ops);
 }
@@ -164,13 +222,23 @@ fn c19_f64_arith_slow() {
 #[kani::proof]
 #[kani::unwind(10)]
 #[kani::stub(alloc::fmt::format, crate::stubs::fmt_stub)]
-fn c19_f32_exact_unary() {
+fn c19_f32_signs() {
     let ops = FloatOpsFactory::<f32>::make();
     let a: f32 = kani::any();
     assert!(feq32(un32(&ops, FIDX_PLUS, "+")(a), a));
     assert!(feq32(un32(&ops, FIDX_MINUS, "-")(a), -a));
     assert!(feq32(un32(&ops, FIDX_ABS, "abs")(a), a.abs()));
     assert!(feq32(un32(&ops, FIDX_SIGNUM, "signum")(a), a.signum()));
+    kani::cover!(a < -1.5 && a > -2.5, "negative non-integer operand reached");
+    core::mem::forget(ops);
+}
+
+#[kani::proof]
+#[kani::unwind(10)]
+#[kani::stub(alloc::fmt::format, crate::stubs::fmt_stub)]
+fn c19_f32_rounding_slow() {
+    let ops = FloatOpsFactory::<f32>::make();
+    let a: f32 = kani::any();
     assert!(feq32(un32(&ops, FIDX_FLOOR, "floor")(a), a.floor()));
     assert!(feq32(un32(&ops, FIDX_CEIL, "ceil")(a), a.ceil()));
     assert!(feq32(un32(&ops, FIDX_ROUND, "round")(a), a.round()));
@@ -180,52 +248,89 @@ fn c19_f32_exact_unary() {
     core::mem::forget(ops);
 }
 
+/// tagged stubs, f32, group a: sin, ln, log and the two-argument primitives powf, atan2 (argument order)
 #[kani::proof]
 #[kani::unwind(10)]
 #[kani::stub(alloc::fmt::format, crate::stubs::fmt_stub)]
 #[kani::stub(f32::sin, t32::sin)]
+#[kani::stub(f32::ln, t32::ln)]
+#[kani::stub(f32::powf, t32::powf)]
+#[kani::stub(f32::atan2, t32::atan2)]
+fn c19_f32_tagged_a() {
+    let ops = FloatOpsFactory::<f32>::make();
+    let a: f32 = kani::any();
+    let b: f32 = kani::any();
+    assert!(feq32(un32(&ops, FIDX_SIN, "sin")(a), t32::sin(a)));
+    assert!(feq32(un32(&ops, FIDX_LN, "ln")(a), t32::ln(a)));
+    assert!(feq32(un32(&ops, FIDX_LOG, "log")(a), t32::ln(a)));
+    assert!(feq32(bin32(&ops, FIDX_POW, "^")(a, b), t32::powf(a, b)));
+    assert!(feq32(bin32(&ops, FIDX_ATAN2, "atan2")(a, b), t32::atan2(a, b)));
+    kani::cover!(a != b && !a.is_nan() && !b.is_nan(), "two different operands reached");
+    core::mem::forget(ops);
+}
+
+/// tagged stubs, f32, group b: cos, tan, asin, acos, atan
+#[kani::proof]
+#[kani::unwind(10)]
+#[kani::stub(alloc::fmt::format, crate::stubs::fmt_stub)]
 #[kani::stub(f32::cos, t32::cos)]
 #[kani::stub(f32::tan, t32::tan)]
 #[kani::stub(f32::asin, t32::asin)]
 #[kani::stub(f32::acos, t32::acos)]
 #[kani::stub(f32::atan, t32::atan)]
+fn c19_f32_tagged_b_slow() {
+    let ops = FloatOpsFactory::<f32>::make();
+    let a: f32 = kani::any();
+    let b: f32 = kani::any();
+    assert!(feq32(un32(&ops, FIDX_COS, "cos")(a), t32::cos(a)));
+    assert!(feq32(un32(&ops, FIDX_TAN, "tan")(a), t32::tan(a)));
+    assert!(feq32(un32(&ops, FIDX_ASIN, "asin")(a), t32::asin(a)));
+    assert!(feq32(un32(&ops, FIDX_ACOS, "acos")(a), t32::acos(a)));
+    assert!(feq32(un32(&ops, FIDX_ATAN, "atan")(a), t32::atan(a)));
+    kani::cover!(a != b && !a.is_nan() && !b.is_nan(), "two different operands reached");
+    core::mem::forget(ops);
+}
+
+/// tagged stubs, f32, group c: sinh, cosh, tanh, asinh, acosh, atanh
+#[kani::proof]
+#[kani::unwind(10)]
+#[kani::stub(alloc::fmt::format, crate::stubs::fmt_stub)]
 #[kani::stub(f32::sinh, t32::sinh)]
 #[kani::stub(f32::cosh, t32::cosh)]
 #[kani::stub(f32::tanh, t32::tanh)]
 #[kani::stub(f32::asinh, t32::asinh)]
 #[kani::stub(f32::acosh, t32::acosh)]
 #[kani::stub(f32::atanh, t32::atanh)]
-#[kani::stub(f32::exp, t32::exp)]
-#[kani::stub(f32::ln, t32::ln)]
-#[kani::stub(f32::log2, t32::log2)]
-#[kani::stub(f32::log10, t32::log10)]
-#[kani::stub(f32::cbrt, t32::cbrt)]
-#[kani::stub(f32::powf, t32::powf)]
-#[kani::stub(f32::atan2, t32::atan2)]
-fn c19_f32_tagged() {
+fn c19_f32_tagged_c_slow() {
     let ops = FloatOpsFactory::<f32>::make();
     let a: f32 = kani::any();
     let b: f32 = kani::any();
-    assert!(feq32(un32(&ops, FIDX_SIN, "sin")(a), t32::sin(a)));
-    assert!(feq32(un32(&ops, FIDX_COS, "cos")(a), t32::cos(a)));
-    assert!(feq32(un32(&ops, FIDX_TAN, "tan")(a), t32::tan(a)));
-    assert!(feq32(un32(&ops, FIDX_ASIN, "asin")(a), t32::asin(a)));
-    assert!(feq32(un32(&ops, FIDX_ACOS, "acos")(a), t32::acos(a)));
-    assert!(feq32(un32(&ops, FIDX_ATAN, "atan")(a), t32::atan(a)));
     assert!(feq32(un32(&ops, FIDX_SINH, "sinh")(a), t32::sinh(a)));
     assert!(feq32(un32(&ops, FIDX_COSH, "cosh")(a), t32::cosh(a)));
     assert!(feq32(un32(&ops, FIDX_TANH, "tanh")(a), t32::tanh(a)));
     assert!(feq32(un32(&ops, FIDX_ASINH, "asinh")(a), t32::asinh(a)));
     assert!(feq32(un32(&ops, FIDX_ACOSH, "acosh")(a), t32::acosh(a)));
     assert!(feq32(un32(&ops, FIDX_ATANH, "atanh")(a), t32::atanh(a)));
+    kani::cover!(a != b && !a.is_nan() && !b.is_nan(), "two different operands reached");
+    core::mem::forget(ops);
+}
+
+/// tagged stubs, f32, group d: exp, log2, log10, cbrt
+#[kani::proof]
+#[kani::unwind(10)]
+#[kani::stub(alloc::fmt::format, crate::stubs::fmt_stub)]
+#[kani::stub(f32::exp, t32::exp)]
+#[kani::stub(f32::log2, t32::log2)]
+#[kani::stub(f32::log10, t32::log10)]
+#[kani::stub(f32::cbrt, t32::cbrt)]
+fn c19_f32_tagged_d_slow() {
+    let ops = FloatOpsFactory::<f32>::make();
+    let a: f32 = kani::any();
+    let b: f32 = kani::any();
     assert!(feq32(un32(&ops, FIDX_EXP, "exp")(a), t32::exp(a)));
-    assert!(feq32(un32(&ops, FIDX_LN, "ln")(a), t32::ln(a)));
-    assert!(feq32(un32(&ops, FIDX_LOG, "log")(a), t32::ln(a)));
     assert!(feq32(un32(&ops, FIDX_LOG2, "log2")(a), t32::log2(a)));
     assert!(feq32(un32(&ops, FIDX_LOG10, "log10")(a), t32::log10(a)));
     assert!(feq32(un32(&ops, FIDX_CBRT, "cbrt")(a), t32::cbrt(a)));
-    assert!(feq32(bin32(&ops, FIDX_POW, "^")(a, b), t32::powf(a, b)));
-    assert!(feq32(bin32(&ops, FIDX_ATAN2, "atan2")(a, b), t32::atan2(a, b)));
     kani::cover!(a != b && !a.is_nan() && !b.is_nan(), "two different operands reached");
     core::mem::forget(ops);
 }
